@@ -18,11 +18,15 @@ namespace
     {
       const double omega = gen_omega(c.rng, s);
       omega_tag(c, omega);
+      // (seed C08f) half of the objects are constructed with another damping parameter and get theirs through set_omega()
+      const bool via_set = c.rng.coin(0.5);
+      const double omega0 = omega == 1.0 ? 0.5 : 1.0;
+      if(via_set) c.tag("omega:via_set_omega");
       c.set_op("jacobi.apply");
       c.desc = vh::J().kv("precond", "jacobi").kv("omega", omega).raw("system", s.describe()).str();
       typedef typename MT_::DataType DT;
       history(c, s, m, f, "jacobi.apply", vh::J().kv("omega", omega).str(),
-        [&](const MT_& mm, const auto& ff) { return Solver::new_jacobi_precond(mm, ff, DT(omega)); },
+        [&](const MT_& mm, const auto& ff) { auto pp = Solver::new_jacobi_precond(mm, ff, DT(via_set ? omega0 : omega)); if(via_set) pp->set_omega(DT(omega)); return pp; },
         [omega](const Sys& t)
         {
           const Index n = t.n; std::vector<LD> d(n); for(Index i = 0; i < n; ++i) d[i] = t.a[std::size_t(i) * n + i];
